@@ -20,3 +20,17 @@ func isIntType(t types.Type) bool {
 	b, ok := t.Underlying().(*types.Basic)
 	return ok && b.Info()&types.IsInteger != 0
 }
+
+// repoConstString: the value of a package-level string constant of the repository's root package.
+func repoConstString(p *Prog, name string) string {
+	for _, pk := range p.AllPkgs {
+		if pk.PkgPath == "github.com/weedbox/pokertable" && pk.Types != nil {
+			if o := pk.Types.Scope().Lookup(name); o != nil {
+				if c, ok := o.(*types.Const); ok && c.Val().Kind() == constant.String {
+					return constant.StringVal(c.Val())
+				}
+			}
+		}
+	}
+	return "\x00missing"
+}
